@@ -100,6 +100,40 @@ def run(ctx):
                 bad = [i for i, (x, y) in enumerate(zip(a["result"]["point_labels"], b["result"]["point_labels"])) if x != y]
                 ctx.violation("monitor", "joint run with worker processes: the label lists of series %s differ from the run without worker processes "
                               "(lengths %s)" % (bad, a["cfg"]["lengths"]), {"case": {"cfg": a["cfg"]}})
+        # successive calls in one process on VIEWS of one buffer (a growing recording, a trimmed one, a window moved along
+        # it): every call must answer for the rows it is given now - T labels for T rows, margins exactly W-1
+        from fast_ticc import front_end as _fe
+        import random as _random
+        for rep in range(ctx.budget(2, 6)):
+            N = 1 + rep % 2; W = 2 + rep % 3; K = 2
+            drng = np.random.default_rng(900 + rep)
+            buf = np.concatenate([drng.normal(loc=3.0 * (i % 2), size=(40, N)) for i in range(4)])
+            plan = [("prefix", 0, 60), ("longer prefix", 0, 100), ("shorter prefix", 0, 90), ("same start, other length", 0, 75),
+                    ("suffix", 60, 160), ("moved window", 20, 95)][: (4 if not ctx.thorough else 6)]
+            joint_plan = [[(0, 50), (50, 110)], [(0, 60), (60, 100)], [(0, 40), (40, 110)]]
+            for (what, a, b) in plan:
+                view = buf[a:b]
+                case = {"call": "ticc_labels on buffer[%d:%d] (%s) after earlier calls on other views of the same buffer" % (a, b, what),
+                        "N": N, "W": W, "K": K, "seed": 900 + rep}
+                with ctx.guard("ticc_labels (views of one buffer)", case):
+                    np.random.seed(7); _random.seed(7)
+                    res = _fe.ticc_labels(view, window_size=W, num_clusters=K, label_switching_cost=2.0, iteration_limit=2,
+                                          min_cluster_size=2, num_processors=1)
+                    check_labels(ctx, list(res.point_labels), b - a, W, K, "ticc_labels", case)
+                ctx.count("views-of-one-buffer")
+            for spans in joint_plan:
+                views = [buf[a:b] for (a, b) in spans]
+                case = {"call": "ticc_joint_labels on buffer slices %s after earlier calls on other slices of the same buffer" % (spans,),
+                        "N": N, "W": W, "K": K, "seed": 900 + rep}
+                with ctx.guard("ticc_joint_labels (views of one buffer)", case):
+                    np.random.seed(7); _random.seed(7)
+                    res = _fe.ticc_joint_labels(views, window_size=W, num_clusters=K, label_switching_cost=2.0, iteration_limit=2,
+                                                min_cluster_size=2, num_processors=1)
+                    if len(res.point_labels) != len(views):
+                        ctx.violation("monitor", "joint front end returned %d label lists for %d series" % (len(res.point_labels), len(views)), {"case": case})
+                    for l, (a, b) in zip(res.point_labels, spans):
+                        check_labels(ctx, list(l), b - a, W, K, "ticc_joint_labels", case)
+                ctx.count("views-of-one-buffer")
         # a tiny in-process run keeps the front-end lines under the tracer even on a cache hit
         e2e.traced_run({"N": 1, "W": 2, "K": 2, "beta": 1.0, "lengths": [30], "limit": 1, "m": 1, "data_seed": 1, "rng_seed": 1, "joint": False})
         e2e.traced_run({"N": 1, "W": 2, "K": 2, "beta": 1.0, "lengths": [30, 25], "limit": 1, "m": 1, "data_seed": 1, "rng_seed": 1, "joint": True})
